@@ -15,7 +15,8 @@ EXPLANATION = (
     "every ElementType / ExpressionType / TypeQualifier maps to the allocator of the same type and "
     "fixed-length strings are allocated with their declared length; (R5) LBOUND/UBOUND report field "
     "0 / field 1 of the declared bounds; (R6) the stride of each dimension in abs_index is a "
-    "loop-carried product of the dimension sizes.")
+    "loop-carried product of the dimension sizes; (R7) conversions between the type-describing enums "
+    "preserve the kind of type (fixed-length string, user-defined, built-in) arm by arm.")
 NOT_DECIDED = ["bijectivity of the flat index map (stride arithmetic) and element values (value-level)"]
 
 
@@ -265,6 +266,73 @@ def _role_expr(o):
     return None
 
 
+TYPE_ENUMS = ("ExpressionType", "DimType", "ParamType", "ElementType")
+KIND = {"Integer": "BuiltIn", "Long": "BuiltIn", "Single": "BuiltIn", "Double": "BuiltIn"}
+
+
+def _constructed_kinds(prog, fn, blocks, depth=0):
+    """Kinds of the type-describing values built in `blocks` of fn: aggregates, and one level of
+    constructor helpers returning such a type (DimType::fixed_length_string)."""
+    out = set()
+    body = fn.body
+    for b in blocks:
+        blk = body.blocks[b]
+        for st in blk["s"]:
+            r = st.get("r", {})
+            if r.get("k") == "agg" and r.get("a") == "adt" and r["adt"].split("::")[-1] in TYPE_ENUMS:
+                out.add(KIND.get(r.get("variant"), r.get("variant")))
+        t = blk["t"]
+        if t["k"] == "call" and depth == 0:
+            g = prog.fns.get(mir.callee_of(t))
+            if g is not None and g.kind != "const" and g.body is not None and not common.is_derived(g):
+                rty = g.body.locals[0]["ty"].split("<")[0].split("::")[-1]
+                if rty in TYPE_ENUMS and g.name not in ("clone", "expression_type"):
+                    out |= _constructed_kinds(prog, g, [x for x in range(g.body.nblocks) if not g.body.is_cleanup(x)], 1)
+    return out
+
+
+def r7_kind_preserving_conversions(ctx, rule="C04.R7"):
+    """Where a function matches on a type-describing enum (ExpressionType, DimType, ParamType,
+    ElementType) and builds another type-describing value in the arm, the value built has the kind
+    of the arm: STRING * n stays fixed-length (with its length), a user-defined type stays
+    user-defined, a built-in stays built-in.  (REDIM without AS, DIM conversion, parameter and
+    element typing all go through such matches.)"""
+    prog = ctx.prog
+    n = 0
+    for fn in sorted(prog.fns.values(), key=lambda f: f.id):
+        if fn.body is None or fn.kind == "const" or fn.crate not in ("rusty_linter", "rusty_parser", "rusty_basic"):
+            continue
+        if common.is_derived(fn):
+            continue
+        sws = [s for s in mir.enum_switches(prog, fn.body) if s.adt.split("::")[-1] in TYPE_ENUMS]
+        if not sws:
+            continue
+        regions = {}
+        for sw in sws:
+            for v, tgt in sw.arms.items():
+                regions[(sw.bb, v)] = mir.arm_region(fn.body, sw.bb, tgt)
+        for sw in sws:
+            for v in sorted(sw.arms):
+                region = set(regions[(sw.bb, v)])
+                # arms of nested type matches are judged on their own
+                for (bb2, v2), r2 in regions.items():
+                    if bb2 != sw.bb and bb2 in region:
+                        region -= r2
+                kinds = _constructed_kinds(prog, fn, region)
+                if not kinds:
+                    continue
+                n += 1
+                want = KIND.get(v, v)
+                owner = fn.path.split("::", 1)[1]
+                ctx.decide(kinds == {want}, rule, "%s:%s:%s::%s" % (rule, owner, sw.adt.split("::")[-1], v), fn.loc,
+                           "builds a %s type" % want,
+                           "the arm for %s::%s builds a type of kind %s: a %s declaration is converted into "
+                           "another kind of type (a STRING * n element that stops being fixed-length, a record "
+                           "that becomes a scalar)" % (sw.adt.split("::")[-1], v, sorted(kinds), want))
+    ctx.analysed_units(rule, conversions=n)
+    ctx.require(rule, 18)
+
+
 def run(ctx):
     common.install(ctx)
     c06.r2_store_routes(ctx, "C04.R1", strings_only=True)
@@ -273,3 +341,4 @@ def run(ctx):
     r4_allocation(ctx)
     r5_bounds_reported(ctx)
     r6_stride_is_running_product(ctx)
+    r7_kind_preserving_conversions(ctx)
